@@ -121,13 +121,17 @@ def execute(spec):
     stats["probe_negative_factor"] = int(any(x < 0 for x in a) or c < 0)
 
     arrays = [s.arrays for s in scenes]
+    steppers = [dr.Stepper(s) for s in scenes]
     if has_init:
-        E0, H0 = rp.random_init(scenes[0], spec["init_seed"], scale=0.05)
+        # amplitude of b*F0 = what the weighted sources build up by the last step (scouting pass of the combo scene)
+        E0, H0, sc_, ns = rp.balanced_init(scenes[-2], steppers[-2], spec["init_seed"])
+        rp.count_steps(stats, ns, scenes[0].dt)
+        E0, H0 = E0 / abs(b), H0 / abs(b)
+        stats["init_scale"] = sc_
         arrays[n] = rp.set_fields(scenes[n], E0, H0)
         arrays[-2] = rp.set_fields(scenes[-2], b * E0, b * H0)
         arrays[-1] = rp.set_fields(scenes[-1], c * b * E0, c * b * H0)
     coeff = a + ([b] if has_init else [])
-    steppers = [dr.Stepper(s) for s in scenes]
     states = [st.state0(x) for st, x in zip(steppers, arrays)]
     kind = {d["name"]: d["kind"] for d in spec["detectors"]}
     fc = None
